@@ -655,6 +655,8 @@ class System:
             return m.currentspace
 
     def close_model(self, model):
+        if self.models.get(model.name) is not model:
+            return  # Already closed. Another model may have taken the name
         model.refmgr.del_all_spec()
         del self.models[model.name]
         if self.currentmodel is model:
